@@ -745,6 +745,15 @@ func isPlainCall(in ssa.Instruction) bool {
 // CallsTo lists plain (non-go, non-defer) call instructions to any of names.
 func CallsTo(fn *ssa.Function, names ...string) []ssa.Instruction {
 	var out []ssa.Instruction
+	// the body of a new one-line forwarder (an injected dependency's production implementation) is
+	// not a site of the call it forwards to: its callers are (devirt.go)
+	if g := forwarder(fn); g != nil {
+		for _, n := range names {
+			if FnName(g) == n {
+				return nil
+			}
+		}
+	}
 	eachInstr(fn, func(in ssa.Instruction) {
 		if !isPlainCall(in) {
 			return
@@ -873,6 +882,13 @@ func renderVia(R *Renderer, call ssa.Instruction, name string) string {
 // AnyCallsTo also includes go and defer statements.
 func AnyCallsTo(fn *ssa.Function, names ...string) []ssa.Instruction {
 	var out []ssa.Instruction
+	if g := forwarder(fn); g != nil {
+		for _, n := range names {
+			if FnName(g) == n {
+				return nil
+			}
+		}
+	}
 	eachInstr(fn, func(in ssa.Instruction) {
 		for _, n := range names {
 			if callMatches(in, n) {
